@@ -1,5 +1,6 @@
 import FitModel.Message
 import FitModel.Generated.ToolConsts
+import FitModel.Generated.ToolCli
 /-!
 Model of the fitactivity tools (/repo/cmd/fitactivity/{concealer,remover,reducer,combiner,aggregator}),
 on protocol messages (`Fit.Msg.Message`) — the tools look fields up by number with
@@ -198,6 +199,14 @@ def concealEnd (th : Nat) (startIdx : Int) (ms : List Message) : List Message :=
 def conceal (first last : Nat) (ms : List Message) : List Message :=
   let a := concealStart first ms
   concealEnd last a.2 a.1
+
+/-! ### the command line (cmd/fitactivity/main.go) -/
+
+/-- `--first N` / `--last N` are parsed with `fs.UintVar` into a `uint` (64 bits on amd64) and handed to the concealer as
+`uint32(N)*100` — centimetres, the unit of record.distance (scale 100) — computed in uint32: the conversion drops the
+high bits and the product wraps. Width and factor are read from the source on every run (`Generated/ToolCli.lean`:
+both call sites must have this shape). -/
+def cliThreshold (n : Nat) : Nat := (n % 2 ^ cliBits * cliFactor) % 2 ^ cliBits
 
 /-! ### the in-place compaction loop shared by remover, reducer and combiner -/
 
